@@ -11,6 +11,10 @@ CONSTANTS
   Modes = {"run", "master"}
   Conts = {TRUE, FALSE}
   Forks = {TRUE, FALSE}
+  Starts = {0}
+  TreeStart = TRUE
+  Ends = {0}
+  Aheads = {0}
   MaxFaults = 1
   FaultBudgets = {1}
   MaxRestarts = 1
